@@ -764,6 +764,12 @@ func (fr *Frame) assumeLockInv(st *State, li *LockInv, ref *Term) {
 
 func (fr *Frame) checkLockInv(st *State, li *LockInv, ref *Term, n ast.Node) {
 	b := fr.lockBindings(li, ref)
+	if fr.top.fc != nil {
+		// `assume unlock: expr`: a listed assumption about the state in which the lock is released
+		for _, c := range fr.top.fc.Assumes["unlock"] {
+			st.Assume(fr.top.evalSpecBool(st, c.Expr, nil, fr.top.entry))
+		}
+	}
 	for i, c := range li.Inv {
 		name := c.Name
 		if name == "" {
